@@ -102,3 +102,89 @@ Theorem C10_rewrite_inplace_refuted :
   fst (recovered (wrun fs_new (firstn 6 (writes write_inplace [[65]; [66]])))) = [].
 Proof. exact rewrite_inplace_refuted_blocks. Qed.
 Print Assumptions C10_rewrite_inplace_refuted.
+
+(* ---- The hand-off from the three metrics WALs (datapoints, metric names, segment meta entries) to the durable store
+   at a FORCED ROTATION (shutdown: ForceFlushMetricsBlock -> CheckAndRotate(true) -> rotateBlock, rotateSegment) and in
+   the start-up recovery itself.  An item is the logged content of one kind for one shard; [Stored] = the call after
+   which it is durable in the store, [Dropped] = the unlink of its log; after a restart an item is in the store iff it
+   was stored or its log still exists (WalHandoff.v; the observed milestone order of the real rotation / recovery must
+   be a schedule of the model's and the real recovery's result at every crash point must equal [recovered]).
+   FULL STATEMENT: for every crash point k inside the rotation (and inside the recovery), after restart + the three
+   Recover* functions every item whose log append had completed is in the store.
+   General theorem (any item set, any milestone sequence): this holds at every crash point EXACTLY when every log is
+   dropped only after everything it held has been stored ("store first, then drop the log"). ---- *)
+From SigM Require Import WalHandoff.
+From SigP Require Import WalHandoffProofs.
+Theorem C10_handoff_safe_iff_store_before_drop : forall xs ops,
+  crash_safe xs ops <-> ordered_from [] xs ops = true.
+Proof. exact handoff_safe_iff_ordered. Qed.
+Print Assumptions C10_handoff_safe_iff_store_before_drop.
+
+(* the code's forced rotation (fix 739a6ba: the meta-entry log, one file for all shards, is deleted once after every
+   shard is registered): the FULL statement, for every number of shards - one shard after the other ... *)
+Theorem C10_forced_rotation_safe : forall shards,
+  crash_safe (items shards) (forced_rotation_fixed shards).
+Proof. exact forced_rotation_fixed_safe. Qed.
+Print Assumptions C10_forced_rotation_safe.
+(* ... and for EVERY schedule of the per-shard goroutines of ForceFlushMetricsBlock *)
+Theorem C10_forced_rotation_any_schedule_safe : forall shards ops,
+  Interleave (map rotate_shard_fixed shards) ops -> crash_safe (items shards) (ops ++ [meta_drop]).
+Proof. exact forced_rotation_any_schedule_safe. Qed.
+Print Assumptions C10_forced_rotation_any_schedule_safe.
+
+(* the meta-entry log deleted before the shards are registered (the class of seed C10f on the fixed tree): the logged
+   meta entry of EVERY shard is in neither after a crash behind the deletion *)
+Theorem C10_forced_rotation_drop_before_register_refuted : forall shards sh, In sh shards ->
+  recovered (hrun h0 (firstn 1 (forced_rotation_drop_first shards))) (KMeta, sh) = false
+  /\ ~ crash_safe (items shards) (forced_rotation_drop_first shards).
+Proof. exact forced_rotation_drop_first_refuted. Qed.
+Print Assumptions C10_forced_rotation_drop_before_register_refuted.
+
+(* PRE-FIX documentation (before 739a6ba: the first shard to finish rotateSegment deleted the shared log; no longer
+   what the code does): one shard was safe, with several shards everything survived except the meta entries of the
+   shards rotated after the first one (fixed finding forced_rotation_meta_log_deleted_with_other_shards_entries); and
+   the two last blocks of that rotateSegment swapped (seed C10f as seeded) lost the entry even with one shard. *)
+Theorem C10_prefix_per_shard_deletion_guarded : forall shards k x, In x (items shards) ->
+  (fst x = KMeta -> snd x = hd 0%N shards) ->
+  recovered (hrun h0 (firstn k (forced_rotation shards))) x = true.
+Proof. exact forced_rotation_guarded. Qed.
+Print Assumptions C10_prefix_per_shard_deletion_guarded.
+Example C10_prefix_per_shard_deletion_guard_satisfiable :
+  In (KMeta, 0%N) (items [0%N; 1%N]) /\ (fst (KMeta, 0%N) = KMeta -> snd (KMeta, 0%N) = hd 0%N [0%N; 1%N]).
+Proof. split; [simpl; auto | reflexivity]. Qed.
+Theorem C10_prefix_per_shard_deletion_refuted :
+  NoDup [0%N; 1%N] /\ In (KMeta, 1%N) (items [0%N; 1%N]) /\
+  recovered (hrun h0 (firstn 6 (forced_rotation [0%N; 1%N]))) (KMeta, 1%N) = false.
+Proof. exact forced_rotation_multi_refuted. Qed.
+Print Assumptions C10_prefix_per_shard_deletion_refuted.
+Theorem C10_prefix_swapped_rotate_segment_refuted : forall sh,
+  recovered (hrun h0 (firstn 5 (forced_rotation_swapped [sh]))) (KMeta, sh) = false
+  /\ ~ crash_safe (items [sh]) (forced_rotation_swapped [sh]).
+Proof. intros sh. split; [apply forced_rotation_swapped_refuted | apply forced_rotation_swapped_not_safe]. Qed.
+Print Assumptions C10_prefix_swapped_rotate_segment_refuted.
+
+(* the start-up recovery (fix 4a40913): flushBlock / FlushMetricNames first, then the deletion of the files that were
+   replayed: the FULL statement for every number of shards *)
+Theorem C10_recovery_store_first_safe : forall shards,
+  crash_safe (items shards) (recovery_ops_store_first shards).
+Proof. exact recovery_store_first_safe. Qed.
+Print Assumptions C10_recovery_store_first_safe.
+(* PRE-FIX documentation (before 4a40913: each WAL file deleted as soon as it was read, the rebuilt block / the .mnm
+   file written afterwards; fixed findings recovery_crash_loses_logged_datapoints / _metric_names) *)
+Theorem C10_prefix_recovery_delete_before_store_refuted : forall sh,
+  recovered (hrun h0 (firstn 1 (recovery_ops [sh]))) (KDp, sh) = false /\
+  recovered (hrun h0 (firstn 3 (recovery_ops [sh]))) (KName, sh) = false.
+Proof. exact recovery_as_coded_refuted. Qed.
+Print Assumptions C10_prefix_recovery_delete_before_store_refuted.
+
+(* ---- store first, then drop the log — from the source: on EVERY path through rotateBlock the block is flushed
+   (mb.flushBlock) before a datapoint log is deleted; on every path through rotateSegment the metric names are
+   flushed before the metric-name log is deleted, and rotateSegment never deletes the meta-entry log (one file for
+   all segments); ForceFlushMetricsBlock deletes it only after wg.Wait() (call-order skeletons regenerated from
+   /repo on every run by gotrans in calltrace mode, callees inlined: rules C10.* of GenOrderCheck.co_rules).
+   The milestone orders WalHandoff.v takes as the code's are the code's. ---- *)
+From SigP Require GenOrderCheck GenOrderProofs.
+Theorem C10_code_stores_before_it_drops_a_log : forall r : GenOrderCheck.rule,
+  In r GenOrderCheck.c10_rules -> GenOrderCheck.rule_holds r.
+Proof. exact GenOrderProofs.co_C10_rules_hold. Qed.
+Print Assumptions C10_code_stores_before_it_drops_a_log.
